@@ -550,8 +550,21 @@ class List(list, base.Symbolic, pg_typing.CustomTyping):
                               'Use \'rebind\' method instead.'))
     if isinstance(index, slice):
       start, stop, step = self._parse_slice(index)
-      replacements = [self._formalized_value(i, v) for i, v in enumerate(value)]
+      value = list(value)
       slice_size = len(range(start, stop, step))
+      if step != 1 and slice_size != len(value):
+        # Checked before any value is formalized: a rejected assignment must
+        # not leave the offered values claiming this list as their parent.
+        raise ValueError(
+            f'attempt to assign sequence of size {len(value)} to '
+            f'extended slice of size {slice_size}')
+      # Each value is formalized for the position it will be stored at (and
+      # not for its rank in `value`): a symbolic value is then moved there as
+      # it is, instead of being copied while the original keeps claiming this
+      # list as its parent.
+      replacements = [
+          self._formalized_value(start + i * step, v)
+          for i, v in enumerate(value)]
       if step == 1:
         if slice_size < len(replacements):
           for i in range(slice_size, len(replacements)):
